@@ -434,6 +434,36 @@ pub mod versions {
                 .collect()
         }
 
+        /// `Version::finalize`: (level with the best size score, whether that score is >= 1).
+        pub fn size_compaction(&self) -> (usize, bool) {
+            let mut guard = self.node.write();
+            guard.element.finalize();
+            let level = guard
+                .element
+                .get_size_compaction_metadata()
+                .map(|m| m.compaction_level)
+                .unwrap_or(0);
+            (level, guard.element.requires_size_compaction())
+        }
+
+        /// `Version::record_read_sample` for each key in turn: (answer, file_to_compact and its
+        /// recorded level afterwards).
+        #[allow(clippy::type_complexity)]
+        pub fn read_samples(&self, keys: &[Key]) -> Vec<(bool, Option<(u64, usize)>)> {
+            let mut out = vec![];
+            for k in keys {
+                let mut guard = self.node.write();
+                let answer = guard.element.record_read_sample(&mk_key(k));
+                let meta = guard.element.get_seek_compaction_metadata();
+                let state = meta
+                    .file_to_compact
+                    .as_ref()
+                    .map(|f| (f.file_number(), meta.level_of_file_to_compact));
+                out.push((answer, state));
+            }
+            out
+        }
+
         pub fn pick_level_for_memtable_output(&self, lo: &[u8], hi: &[u8]) -> usize {
             self.node.read().element.pick_level_for_memtable_output(lo, hi)
         }
